@@ -1,7 +1,9 @@
 # -*- coding: utf-8 -*-
 """C03 - Each completed session is delivered exactly once and byte-exact."""
+import re
+
 from harness import common, gens, recv, oracles
-from harness.common import Stream
+from harness.common import Stream, hexb
 from harness.props.C02 import run_histories_fmt
 
 PID = "C03"
@@ -239,7 +241,29 @@ def exploratory_stream(ctx, r):
         mo = recv.parse_model(ml) if ml else None
         if mo is not None:
             recv.compare_history(x, h[0], h[1], obs, mo, case, check_oracle=False)
+        # whether or not such frames are merged, "every text byte preserved" can be judged: the texts of the
+        # acknowledged frames, in order, are the texts of the delivered frames, in order (astm format)
+        frames_ = [e[1] for e in h[1] if e[0] == "d" and e[1][:1] == b"\x02"]
+        if h[0] == "astm" and frames_ and not any(f.endswith(b"\r\n") for f in frames_):
+            # (a line-oriented sender: no frame carries CR LF; a run in which only some frames lack it is the lossy
+            # branch of observation O1)
+            acked = [e[1] for e, ob in zip(h[1], obs) if e[0] == "d" and e[1][:1] == b"\x02" and ob["writes"] == [b"\x06"]]
+            want = b"".join(frame_text(f) for f in acked)
+            items = [it for ob in obs for it in ob["delivered"]]
+            got = b"".join(frame_text(f) for it in items
+                           for f in re.split(b"\n(?=\x02)", it.encode("latin-1") if isinstance(it, str) else it))
+            if items and got != want:
+                x.fail(dict(case, acknowledged_text=hexb(want)[:400], delivered_text=hexb(got)[:400]),
+                       "the text bytes of the acknowledged frames are not the text bytes of the delivered frames "
+                       "(frames ending without CR LF behind the checksum)", "exploratory-O1/text-bytes")
     return x
+
+
+def frame_text(f):
+    """the text of a frame: what stands between the frame number and the terminator ETB / ETX (the CR that ends the
+    last record belongs to the text), whatever follows the checksum"""
+    f = f.rstrip(b"\r\n")
+    return f[2:-3]
 
 
 def search(ctx, disagreements):
